@@ -186,31 +186,52 @@ class Analyzer:
         return found[0]
 
     def _exempt_kinds(self) -> T.Set[str]:
-        """Token kinds that carry no text of their own when they become `current`: the kind that the advancing method
-        appends to current_ws and then leaves as current (eol), and the kind of the token it synthesises at the end."""
+        """Token kinds that carry no text of their own when they become `current`: the kinds of the token that the advancing
+        method has appended to current_ws on a path where it stays the current token (eol), and the kind of a token the method
+        synthesises itself (eof).  Read from the paths of the method, whatever loop form it uses."""
         fn = self.methods[self.primitive]
         out: T.Set[str] = set()
-        for w in ast.walk(fn):
-            if isinstance(w, ast.While) and isinstance(w.test, ast.Compare) and norm(w.test.left) == 'self.current.tid' and isinstance(w.test.ops[0], ast.In):
-                ws_kinds = fold_expr(self.repo, self.mod, w.test.comparators[0])
-                if not (w.body and norm(w.body[0]) == 'self.current_ws.append(self.current)'):
-                    continue
-                for st in w.body[1:]:
-                    if isinstance(st, ast.If) and isinstance(st.test, ast.Compare) and len(st.test.ops) == 1 and any(isinstance(b, ast.Break) for b in st.body):
-                        l, r_ = st.test.left, st.test.comparators[0]
-                        if norm(r_) == 'self.current.tid':
-                            l, r_ = r_, l
-                        if norm(l) != 'self.current.tid' or not isinstance(st.test.ops[0], (ast.Eq, ast.In)):
-                            continue
-                        k = fold_expr(self.repo, self.mod, r_)
-                        ks = [k] if isinstance(st.test.ops[0], ast.Eq) else list(k)
-                        out |= {x for x in ks if x in ws_kinds}
-        for h in ast.walk(fn):
-            if isinstance(h, ast.ExceptHandler):
-                for st in h.body:
-                    if isinstance(st, ast.Assign) and norm(st.targets[0]) == 'self.current' and isinstance(st.value, ast.Call) \
-                            and norm(st.value.func) == 'Token' and isinstance(st.value.args[0], ast.Constant):
-                        out.add(st.value.args[0].value)
+        for st in walk_no_nested(fn):
+            if isinstance(st, ast.Assign) and any(attr_chain(t) == 'self.current' for t in st.targets) and isinstance(st.value, ast.Call) \
+                    and norm(st.value.func) == 'Token' and st.value.args and isinstance(st.value.args[0], ast.Constant):
+                out.add(st.value.args[0].value)
+        for p in enumerate_paths(fn.body, unroll=1, handlers=True):
+            if p.outcome == 'raise':
+                continue
+            alias: T.Set[str] = set()          # locals holding the same token as self.current
+            appended = False
+            eq: T.Set[str] = set()
+            member: T.Optional[T.Set[str]] = None
+
+            def is_cur(e: ast.AST) -> bool:
+                return norm(e) == 'self.current' or (isinstance(e, ast.Name) and e.id in alias)
+            for ev in p.events:
+                n = ev.node
+                if ev.kind == 'stmt' and isinstance(n, ast.Assign) and any(attr_chain(t) == 'self.current' for t in n.targets):
+                    alias = {n.value.id} if isinstance(n.value, ast.Name) else set()
+                    appended, eq, member = False, set(), None
+                elif ev.kind == 'stmt' and isinstance(n, ast.Assign) and isinstance(n.targets[0], ast.Name) and norm(n.value) == 'self.current':
+                    alias.add(n.targets[0].id)
+                elif ev.kind == 'stmt' and isinstance(n, ast.Expr) and isinstance(n.value, ast.Call) and norm(n.value.func) == 'self.current_ws.append' \
+                        and n.value.args and is_cur(n.value.args[0]):
+                    appended = True
+                elif ev.kind == 'cond' and isinstance(n, ast.Compare) and len(n.ops) == 1 and isinstance(n.left, ast.Attribute) and n.left.attr == 'tid' \
+                        and is_cur(n.left.value):
+                    op, rhs = n.ops[0], n.comparators[0]
+                    pos = (isinstance(op, (ast.Eq, ast.In)) and ev.val) or (isinstance(op, (ast.NotEq, ast.NotIn)) and not ev.val)
+                    if pos:
+                        k = fold_expr(self.repo, self.mod, rhs)
+                        if isinstance(op, (ast.Eq, ast.NotEq)):
+                            eq.add(k)
+                        else:
+                            member = set(k)
+            if appended:
+                if eq:
+                    out |= eq
+                elif member is not None:
+                    out |= member
+                else:
+                    raise Undecided(f'{self.cls}.{self.primitive}: a token is appended to the pending whitespace and stays current, its kind is not tested')
         return out
 
     def _classify(self, n: str, fn: ast.FunctionDef) -> str:
@@ -325,6 +346,9 @@ class Analyzer:
     def _k(self, kind: T.Any) -> str:
         if isinstance(kind, frozenset):
             return 'of a kind in {' + ', '.join(sorted(kind)) + '}'
+        if isinstance(kind, tuple) and kind and kind[0] == 'param':
+            ps = params_of(self.fnnode)[1:] if self.fnnode is not None else []
+            return f'of the kind given by parameter `{ps[kind[1]]}`' if kind[1] < len(ps) else 'of a kind given by a parameter'
         return f'`{kind}`' if isinstance(kind, str) else '(kind unknown)'
 
     def site(self, node: ast.AST, what: str) -> None:
